@@ -693,6 +693,53 @@ impl RenetClient {
     }
 }
 
+/// Verification hooks (feature `verif`): read-only observers and a counter teleport for fresh connections.
+#[cfg(feature = "verif")]
+impl RenetClient {
+    /// Accounted (used, max) bytes of a receive channel.
+    pub fn verif_receive_memory(&self, channel_id: u8) -> Option<(usize, usize)> {
+        if let Some(c) = self.receive_reliable_channels.get(&channel_id) {
+            return Some(c.verif_memory());
+        }
+        self.receive_unreliable_channels.get(&channel_id).map(|c| c.verif_memory())
+    }
+
+    /// Unacknowledged messages of a reliable send channel: (message id, per-slice acked flags).
+    pub fn verif_unacked(&self, channel_id: u8) -> Option<Vec<(u64, Vec<bool>)>> {
+        self.send_reliable_channels.get(&channel_id).map(|c| c.verif_unacked())
+    }
+
+    /// The recorded set of received packet sequences still to be acknowledged.
+    pub fn verif_pending_acks(&self) -> Vec<Range<u64>> {
+        self.pending_acks.clone()
+    }
+
+    /// Sequences of sent packets still tracked for acknowledgement.
+    pub fn verif_sent_packets(&self) -> Vec<u64> {
+        self.sent_packets.keys().copied().collect()
+    }
+
+    /// Emulates a connection that has already carried `packet_sequence` packets and, per channel,
+    /// `next_message_id` messages. `send` lists (channel, id) for send channels, `recv` for receive channels.
+    /// Only valid on a connection that has not sent or received anything yet.
+    pub fn verif_set_counters(&mut self, packet_sequence: u64, send: &[(u8, u64)], recv: &[(u8, u64)]) {
+        assert!(self.sent_packets.is_empty() && self.pending_acks.is_empty(), "verif counter teleport is only for fresh connections");
+        self.packet_sequence = packet_sequence;
+        for &(channel_id, id) in send {
+            if let Some(c) = self.send_reliable_channels.get_mut(&channel_id) {
+                c.verif_set_next_message_id(id);
+            } else if let Some(c) = self.send_unreliable_channels.get_mut(&channel_id) {
+                c.verif_set_next_message_id(id);
+            }
+        }
+        for &(channel_id, id) in recv {
+            if let Some(c) = self.receive_reliable_channels.get_mut(&channel_id) {
+                c.verif_set_next_message_id(id);
+            }
+        }
+    }
+}
+
 #[cfg(test)]
 mod tests {
     use super::*;
